@@ -167,7 +167,7 @@ def run(v):
     races = parse_races(out)
     race_sigs = sorted(set(r["signature"] for r in races))
     kinds = sum(1 for k, n in ops_total.items() if n > 0)
-    scen = [k for k in ("f9", "snapdup", "halfinit", "regstress", "ckptsnap", "ckptfail") if extra_s.get(k)]
+    scen = [k for k in ("f9", "snapdup", "halfinit", "queuedsync", "regstress", "ckptsnap", "ckptfail") if extra_s.get(k)]
     reg_cases = sum(n for k, n in (stats.get("classes") or {}).items() if k.startswith("regsched/"))
     v.coverage.update({
         "evaluations": n_calls + total,
@@ -194,7 +194,7 @@ def run(v):
         "corrupt_published_snapshots_replaced_by_good_upload": sum(e.get("corrupt_published_snapshots_replaced_by_good_upload", 0) for e in eps),
         "local_only_l0_files_after_cancelled_close": sum(e.get("local_only_l0_files_after_close", 0) for e in eps),
         "corrupt_published_snapshots_set_aside": sum(e.get("corrupt_published_snapshots_set_aside", 0) for e in eps),
-        "scenarios": {k: extra_s.get(k) for k in ("basic", "f9", "snapdup", "halfinit", "ckptfail", "ckptsnap", "regsched", "regstress")},
+        "scenarios": {k: extra_s.get(k) for k in ("basic", "f9", "snapdup", "halfinit", "queuedsync", "ckptfail", "ckptsnap", "regsched", "regstress")},
         "registry_schedules_compared_with_model": reg_cases,
         "race_reports": len(races),
         "race_report_groups": race_sigs,
